@@ -73,6 +73,16 @@ func c24Compare(ref *refReq, b *bfeReq) (kind, detail string) {
 			}
 			continue
 		}
+		if n == "Content-Length" && len(fs) > 1 && len(bv) == 1 {
+			// RFC 7230 3.3.2: identical duplicates may be replaced by a single field
+			ok := false
+			for _, f := range fs {
+				ok = ok || f.Value == bv[0] || f.Fold && foldSpaces(f.Value) == foldSpaces(bv[0])
+			}
+			if ok {
+				continue
+			}
+		}
 		if len(bv) != len(fs) {
 			return "field-value-mismatch", fmt.Sprintf("field %q: bfe values %q, reference %d values", n, bv, len(fs))
 		}
